@@ -32,11 +32,10 @@ def register(name, **kw):
 def _gen_key(D, cs):
     import hashlib
     h = hashlib.sha1()
-    for f in sorted(os.listdir(DEV)):
-        if f.endswith(".tla") and ("Gen" in f or f in ("AclSem.tla",)):
-            p = os.path.join(DEV, f)
-            if os.path.exists(p):
-                h.update(open(p, "rb").read())
+    for f in (D["gen"] + ".tla", D["gen"] + ".cfg", "AclSem.tla"):      # the dialect's own generator only
+        p = os.path.join(DEV, f)
+        if os.path.exists(p):
+            h.update(open(p, "rb").read())
     h.update(json.dumps(cs, sort_keys=True).encode())
     return h.hexdigest()[:16]
 
@@ -52,39 +51,44 @@ def gen_cases(dialect, fam, consts=None, limit=None, rng=None, timeout=1800):
     cdir = os.path.join(C.VERIF, "cache")
     if fam.endswith("L"):
         cs["Seed"] = str(C.seed())
-    cfile = os.path.join(cdir, "%s-%s-%s.json.gz" % (D["gen"], fam, _gen_key(D, cs)))
-    cases = None
+    # one case per line, so that a sample can be drawn without parsing the whole universe
+    cfile = os.path.join(cdir, "%s-%s-%s.ndjson.gz" % (D["gen"], fam, _gen_key(D, cs)))
+    lines = None
     if os.path.exists(cfile):
         try:
-            with gzip.open(cfile, "rt") as f:
-                cases = json.load(f)
+            with gzip.open(cfile, "rb") as f:
+                lines = f.read().split(b"\n")
+            if lines and lines[-1] == b"":
+                lines.pop()
         except Exception:
-            cases = None
-    if cases is None:
+            lines = None
+    if lines is None:
         # random families (Randomization!RandomSubset) are drawn with tlc -seed = Seed constant of the cache key
         tseed = int(cs.pop("Seed")) if "Seed" in cs else None
         res = C.run_tlc(DEV, D["gen"], D["gen"] + ".cfg", consts=cs, timeout=timeout, heap="8g", tlc_seed=tseed)
         if res.error or res.rc != 0:
             raise C.Broken("%s %s failed: %s" % (D["gen"], fam, res.error or res.out[-2000:]))
-        cases = [json.loads(p[0]) for p in res.prints]
-        for c in cases:      # an empty TLA+ function is printed as an empty JSON array
-            for side in ("dev", "tgt"):
+        lines = []
+        for p in res.prints:
+            c = json.loads(p[0])
+            for side in ("dev", "tgt"):      # an empty TLA+ function is printed as an empty JSON array
                 for k, v in c[side].items():
                     if v == [] and k in D.get("maps", ("acls", "groups")):
                         c[side][k] = {}
+            lines.append(json.dumps(c, separators=(",", ":"), sort_keys=True).encode())
         try:
             os.makedirs(cdir, exist_ok=True)
             tmp = cfile + ".%d.tmp" % os.getpid()
-            with gzip.open(tmp, "wt") as f:
-                json.dump(cases, f, separators=(",", ":"))
+            with gzip.open(tmp, "wb", compresslevel=3) as f:
+                f.write(b"\n".join(lines) + b"\n")
             os.replace(tmp, cfile)
         except OSError:
             pass
-    total = len(cases)
-    if limit and len(cases) > limit:
-        (rng or random.Random(C.seed())).shuffle(cases)
-        cases = cases[:limit]
-    return cases, total
+    total = len(lines)
+    if limit and total > limit:
+        idx = sorted((rng or random.Random(C.seed())).sample(range(total), limit))
+        lines = [lines[i] for i in idx]
+    return [json.loads(x) for x in lines], total
 
 
 # ------------------------------------------------------------------ running the real planner
